@@ -371,6 +371,30 @@ impl<T, U> Framed<T, U> {
 //@spec
     ensures r.fresh(), r.io == io, r.codec == codec,   // [C13,C14]
 //@end
+//@extract file=actix-codec/src/framed.rs item="impl<T, U> Framed<T, U> / fn codec_ref" ret=r props=C13,C14 name=framed::codec_ref
+//@spec
+    ensures *r == self.codec,
+//@end
+//@extract file=actix-codec/src/framed.rs item="impl<T, U> Framed<T, U> / fn codec_mut" ret=r props=C13,C14 name=framed::codec_mut
+//@spec
+    // the borrow reaches the codec only: the transport, both buffers and the flags are out of its reach   [C13,C14]
+    ensures *r == old(self).codec, final(self).codec == *final(r), final(self).io == old(self).io, final(self).same_buffers(&old(self)),
+//@end
+//@extract file=actix-codec/src/framed.rs item="impl<T, U> Framed<T, U> / fn io_ref" ret=r props=C13,C14 name=framed::io_ref
+//@spec
+    ensures *r == self.io,
+//@end
+//@extract file=actix-codec/src/framed.rs item="impl<T, U> Framed<T, U> / fn io_mut" ret=r props=C13,C14 name=framed::io_mut
+//@spec
+    // the borrow reaches the transport only   [C13,C14]
+    ensures *r == old(self).io, final(self).io == *final(r), final(self).codec == old(self).codec, final(self).same_buffers(&old(self)),
+//@end
+//@extract file=actix-codec/src/framed.rs item="impl<T, U> Framed<T, U> / fn io_pin" ret=r props=C13,C14 name=framed::io_pin sig_replace="Pin<&mut T>=>&mut T"
+//@replace pattern="self.project().io" rule=R4d
+&mut self.io
+//@spec
+    ensures *r == old(self).io, final(self).io == *final(r), final(self).codec == old(self).codec, final(self).same_buffers(&old(self)),
+//@end
 //@extract file=actix-codec/src/framed.rs item="impl<T, U> Framed<T, U> / fn is_read_buf_empty" ret=r props=C13 name=framed::is_read_buf_empty
 //@spec
     ensures r == (self.read_buf@.len() == 0),
